@@ -59,9 +59,16 @@ class MermaidGantt:
             return 'active,'
         return ''
 
+    @staticmethod
+    def __text(text: str) -> str:
+        """Task or section text. '#' and ';' start a comment / end the statement, ':' ends the task text and
+        '%%' starts a comment: they are written as Mermaid entity codes (#58;). The leading zero width space
+        keeps an empty text, a text that begins like a keyword (section, title, ...) or like a date a text"""
+        return '#8203;' + ''.join(f'#{ord(c)};' if c in '#;:%' else c for c in text)
+
     def __mermaid_task(self, t: Task) -> str:
         return "    {}: {} {}, {}, {}\n".format(
-            t.name.replace(':', ''),
+            self.__text(t.name),
             self.__mermaid_task_state(t),
             'id_' + str(t.id),
             t.start.strftime('%d.%m.%Y %H:%M'),
@@ -91,7 +98,7 @@ class MermaidGantt:
                 sections_map.setdefault(task_section, []).append(task)
 
             for k, v in sections_map.items():
-                res += f"  section {k}\n"
+                res += f"  section {self.__text(k)}\n"
                 for task in v:
                     res += self.__mermaid_task(task)
 
